@@ -962,6 +962,8 @@ def nondet_contained(m, fnode, call, name):
                 return True, f"key argument of .{par.func.attr}()"
             if isinstance(par, ast.Tuple):
                 return key_only(par, depth + 1)
+            if isinstance(par, ast.Call) and isinstance(par.func, ast.Name) and par.func.id == "hash" and node in par.args:
+                return key_only(par, depth + 1)       # the hash of an identity / a tuple holding one: as good a key as the identity
             if isinstance(par, (ast.SetComp, ast.Set)):
                 return True, "member of a local set"
             if isinstance(par, ast.DictComp) and par.key is node:
